@@ -27,8 +27,12 @@ HUGE = 1 << 20000       # a CBOR bignum of 2.5 kB; too long for Python's default
 JUNK = [None, True, False, 0, 1, -1, TWO53, TWO53 + 1, -TWO53 - 1, HUGE, -HUGE, 1.5, "", "a", "a.b", "a..b", ".a", "a.", "a.b\n", "a b", "a.#", "A.b", "é.b", "\n",
         b"", b"x", b"\xff\xfe", [], [1], ["a"], [None], [[]], [{}], {}, {"a": 1}, {1: 2}, {"a": {"b": []}},
         [{"session": 1, "authid": "a", "authrole": "r"}], [{"session": "x", "authid": "a", "authrole": "r"}], [{"session": 1, "authid": 2, "authrole": "r"}],
-        [{"session": 1}], [1, {"session": 1, "authid": "a", "authrole": "r"}], "exact", "prefix", "kill", "cryptobox", "json"]
+        [{"session": 1}], [1, {"session": 1, "authid": "a", "authrole": "r"}], "exact", "prefix", "kill", "cryptobox", "json",
+        [TWO53 + 1], [5, -1], [HUGE], [{"session": -1, "authid": "a", "authrole": "r"}], [{"session": 1, "authid": "a", "authrole": "r"}, {"session": TWO53 + 1, "authid": "a", "authrole": "r"}]]
 
+KEY_JUNK = [5, HUGE, -HUGE, b"k", 1.5, None, True, (1, 2)]     # non-string dictionary keys (all hashable; CBOR carries each of them)
+
+ID_OPTS = {"caller", "callee", "publisher", "resume-session"}      # options / details whose value is a session id
 ID_ATTRS = {"request", "session", "subscription", "publication", "registration"}
 URI_ATTRS = {"topic", "procedure", "error", "reason"}   # realm has its own (looser) rules in HELLO
 KNOWN_OPTS = {
@@ -282,6 +286,18 @@ def mutate_and_check(ctx, col, cname, base, basedig):
                         if k in W.STRICT_LISTS and k in KNOWN_OPTS[cname] and isinstance(junk, list) and pos < len(m1) and isinstance(m1[pos], dict):
                             if k not in m1[pos] or not W.deep_eq(W.norm(m1[pos][k]), W.norm(junk)):
                                 raise Violation("C08|%s|%s|accepted-option-lost-on-remarshal" % (cname, slot), "input %s=%r, re-marshalled options %r" % (k, brief(junk), brief(m1[pos])), case)
+                        # session ids inside options / details (caller, callee, publisher, resume-session, the elements of exclude / eligible, the
+                        # session of every forward_for hop) are WAMP ids like any other: nothing outside 0..2^53 is accepted
+                        if k in KNOWN_OPTS[cname] and pos == optpos and _read_in_this_form(cname, k, w):
+                            bad_id = None
+                            if k in ID_OPTS and type(junk) == int and not (0 <= junk <= TWO53):
+                                bad_id = junk
+                            elif k in ("exclude", "eligible") and isinstance(junk, list):
+                                bad_id = next((x for x in junk if type(x) == int and not (0 <= x <= TWO53)), None)
+                            elif k == "forward_for" and isinstance(junk, list):
+                                bad_id = next((x.get("session") for x in junk if isinstance(x, dict) and type(x.get("session")) == int and not (0 <= x["session"] <= TWO53)), None)
+                            if bad_id is not None:
+                                raise Violation("C08|%s|%s|id-out-of-range-accepted" % (cname, slot), "message accepted with %s carrying the session id %r (ids are 0..2^53)" % (k, brief(bad_id)), case)
                         if k in OPT_TYPE and k in KNOWN_OPTS[cname]:
                             attr = ATTR_OF_KEY.get(k, k)
                             attrs = W.public_attrs(m)
@@ -294,6 +310,46 @@ def mutate_and_check(ctx, col, cname, base, basedig):
                                     k, brief(junk), jtype(junk), OPT_TYPE[k].__name__, brief(attrs.get(attr, "<no attribute>"))), case)
                     note(slot, junk, m is not None)
                     n_mut += 1
+    # dictionary *keys*: binary serializers carry keys of any type; every dictionary of the message (options / details, kwargs, and the dictionaries nested
+    # in them: roles, a role, its features, authextra, forward_for entries) gets one extra key of a non-string type.  Options, details and kwargs with
+    # a non-string key are wrongly typed: the message must be rejected - with a protocol error, never another exception (a bignum key must not
+    # blow up the error text either); dictionaries the library does not look into (authextra, application payload values) may keep it
+    def dict_paths(node, path=()):
+        if isinstance(node, dict):
+            yield path
+            for k, v in node.items():
+                if isinstance(k, str):
+                    yield from dict_paths(v, path + (k,))
+        elif isinstance(node, list):
+            for i_, v in enumerate(node):
+                yield from dict_paths(v, path + (i_,))
+
+    def with_key(node, path, newkey):
+        if not path:
+            d = dict(node)
+            d[newkey] = 1
+            return d
+        c_ = list(node) if isinstance(node, list) else dict(node)
+        c_[path[0]] = with_key(node[path[0]], path[1:], newkey)
+        return c_
+    kwargs_pos = PAYLOAD_POS.get(cname)
+    for pos in range(1, len(base)):
+        for path in dict_paths(base[pos]):
+            for junk in KEY_JUNK:
+                w = list(base)
+                w[pos] = with_key(base[pos], path, junk)
+                slot = "key@%d%s" % (pos, "".join("/%s" % (x,) for x in path))
+                key = "C08|%s|dict-key|junk:%s" % (cname, jtype(junk))
+                case = {"check": "structured", "cls": cname, "w": w, "slot": slot}
+                m = parse_both(ctx, w, key, case)
+                top = not path
+                if m is not None and top and (pos == optpos or (kwargs_pos is not None and pos == kwargs_pos + 1)):
+                    raise Violation("C08|%s|non-string-key-accepted|%s" % (cname, "options" if pos == optpos else "kwargs"),
+                                    "%s with key %r (%s) accepted" % (slot, brief(junk), jtype(junk)), case)
+                if m is not None:
+                    fixed_point(ctx, m, key, case)
+                note(slot, junk, m is not None)
+                n_mut += 1
     # role announcements (HELLO / WELCOME): every feature of every admissible role is a boolean per the WAMP spec; any other type, and feature names
     # that collide with nothing in the spec, are untrusted input too
     if cname in ("Hello", "Welcome"):
